@@ -612,3 +612,31 @@ pub fn p_more(a: In) -> Out {
     let d = char::from_digit(a[1] % 12, 10).unwrap();
     [u64::from(lg), u64::from(d as u32), 0, 0, 0, 0, 0, 0]
 }
+
+pub fn z_more3(a: In) -> Out {
+    let mid = (a[0] as usize).midpoint(a[1] as usize) as u64;
+    let oz = (if a[2] & 1 == 1 { Some(a[2]) } else { None }).zip(if a[3] & 1 == 0 { Some(a[3]) } else { None });
+    let once: u64 = core::iter::once(&a[4]).chain(a.iter()).zip(a.iter()).filter(|(p, c)| c < p).count() as u64;
+    let mut b = a;
+    if let Some(x) = b.last_mut() {
+        *x = 7;
+    }
+    if let Some(x) = b.get_mut(1) {
+        *x ^= 0xFF;
+    }
+    if let Some(x) = b.first_mut() {
+        *x = x.wrapping_add(1);
+    }
+    let ss = (a[5] as i16 as i32).saturating_sub(a[4] as i16 as i32) as i64 as u64;
+    let ss8 = (a[5] as i8).saturating_sub(a[4] as i8) as u8 as u64;
+    [
+        mid,
+        match oz { Some((p, q)) => u64::from(p) << 32 | u64::from(q), None => 1 },
+        once,
+        u64::from(b[0]) | u64::from(b[1]) << 32,
+        u64::from(b[5]),
+        ss,
+        ss8,
+        u64::from((a[0] as f32).max(f32::NAN) as u32) + u64::from(f32::NAN.min(a[1] as f32) as u32),
+    ]
+}
